@@ -841,6 +841,11 @@ func randGoValue(rng *rand.Rand, t *goType) any {
 	return nil
 }
 
+type nbtHeldBytes struct{ b, copy []byte }
+
+// results of earlier nbt.Marshal calls, with a private copy taken when they were returned
+var nbtHeld []nbtHeldBytes
+
 // nbtEncodeReal runs the real encoder on a value built from (t, v).
 type nbtEncRes struct {
 	Bytes    []byte
@@ -872,7 +877,32 @@ func nbtEncodeReal(t *goType, v any, fmtName, name string, byPtr bool) (r nbtEnc
 	}
 	before := mustJSON(t.getValue(holder.Elem()))
 	var buf bytes.Buffer
+	viaMarshal := fmtName == "file" && name == "" // the convenience entry point encodes exactly this case
 	r.Panicked, r.Msg = catch(func() {
+		if viaMarshal {
+			var b []byte
+			if byPtr {
+				b, r.Err = nbt.Marshal(holder.Interface())
+			} else {
+				b, r.Err = nbt.Marshal(holder.Elem().Interface())
+			}
+			// what Marshal returned earlier is the caller's: it is kept and looked at again after later calls
+			for _, h := range nbtHeld {
+				if !bytes.Equal(h.b, h.copy) {
+					r.Err = fmt.Errorf("bytes returned by an earlier nbt.Marshal call changed after a later call (%d bytes)", len(h.b))
+					nbtHeld = nil
+					break
+				}
+			}
+			if r.Err == nil {
+				nbtHeld = append(nbtHeld, nbtHeldBytes{b, append([]byte{}, b...)})
+				if len(nbtHeld) > 6 {
+					nbtHeld = nbtHeld[1:]
+				}
+			}
+			buf.Write(b)
+			return
+		}
 		enc := nbt.NewEncoder(&buf)
 		enc.NetworkFormat(fmtName == "network")
 		if byPtr {
